@@ -173,6 +173,15 @@ def _mk_classes():
         def _samples(self):
             raise core.Realise("samples of a SymWaveform")
 
+        @property
+        def integral(self):
+            """An arbitrary real (>= 0 for an amplitude), one per stub waveform: nothing in the unmodified scheduler reads it."""
+            key = "integral:" + self._name
+            inp = CUR[0]
+            if key not in inp.memo:
+                inp.memo[key] = inp.real(self._name + ".integral", 0 if self._name.endswith(".amp") else None, None)
+            return inp.memo[key]
+
         def change_duration(self, new_duration):
             return SymWaveform(self._name, new_duration)
 
